@@ -17,6 +17,7 @@
 namespace seq {
 
 struct HeapEnt { mi_heap_t* h = nullptr; bool alive = false; int arena = -1; };
+struct ArenaInfo { mi_arena_id_t id; uintptr_t lo, hi; uintptr_t given_lo, given_hi; bool exclusive; };
 
 struct Config {
   std::string profile = "general";
@@ -27,6 +28,7 @@ struct Config {
   bool padding = false;            // variant has MI_PADDING (usable == requested, expand refuses)
   bool debug = false;              // variant has MI_DEBUG > 0
   bool secure = false;
+  bool tolerate_enomem = false;    // 'unable to allocate memory' reports are expected (heaps bound to a full arena)
   bool allow_null = false;         // allocation failure is legitimate (fault plans active)
   int  clock_jitter = 0;           // advance the virtual clock by random amounts between ops (C13, C18)
   bool purge_cb = false;           // check purge ranges against the shadow model (C13)
@@ -77,6 +79,8 @@ struct State {
   vf_rng_t rng;
   vf::Shadow sm;
   std::vector<HeapEnt> heaps;   // [0] = backing heap of the main thread
+  std::vector<ArenaInfo> arenas; // arenas created by the harness (C15)
+  uint64_t n_arena_inside = 0, n_arena_outside = 0, n_arena_null = 0;
   int cur_default = 0;
   uint64_t ep_count[EP__N] = {0};
   uint64_t op_index = 0;
@@ -116,6 +120,7 @@ vf::Blk* do_alloc(State& S, int force_ep = -1, size_t force_size = SIZE_MAX);
 void   do_free(State& S, vf::Blk* b, int force_ep = -1);
 void   free_all(State& S);
 void   result_body(FILE* f);
+void   arena_range_check(State& S, const void* p, size_t len, int heap_idx, const char* what);
 size_t gen_size(State& S);
 
 // other scenario files
